@@ -106,6 +106,7 @@ func VerifProcessorTwoClients() {
 	}
 	zzverif.WaitQuiescent()
 	onTime(start)
+	bothPending := !ran(1) && !ran(2)
 	clk.AdvanceTo(first)
 	zzverif.WaitQuiescent()
 	onTime(first)
@@ -127,6 +128,15 @@ func VerifProcessorTwoClients() {
 	}
 	zzverif.Assert(n1 <= 1, "at_most_once")
 	zzverif.Assert(n2 <= 1, "at_most_once")
+	// callbacks in scheduled-time order, for items that were both queued (and the system parked) before either ran
+	if bothPending && n1 == 1 && n2 == 1 && !it1.due.Equal(it2.due) {
+		firstRan := log.execs[0].id
+		wantFirst := 1
+		if it2.due.Before(it1.due) {
+			wantFirst = 2
+		}
+		zzverif.Assert(firstRan == wantFirst, "callbacks_in_scheduled_time_order")
+	}
 	zzverif.Assert(n2 == 1, "live_item_executed_none_stranded")
 	if !dequeue1 {
 		zzverif.Assert(n1 == 1, "live_item_executed_none_stranded")
